@@ -10,6 +10,7 @@ CHECK = {
              'separate exact-size scratch block, cstl_vector whose scratch slot is index cap of its own block, cap-count '
              'in {0,1,4}}; for QUICK_R additionally every array over 3 (and 4) values up to length 6-7 (thorough 8) x every '
              'tape of the first three rand() draws (harness-defined rand(): tape first, fair PRNG afterwards). '
+             'Probes of search/find live in a separate object, in an element of the searched array itself (every index in the small scopes), in an equal array, in the scratch element, one past the searched range; self-referential elements (key read through a pointer the caller\'s swap keeps consistent) through 6 selectors x 2 layouts x both APIs; in every second case the sort/search/find/reverse calls run with an allocator that refuses every request. '
              '(b) adversarial: sorted, reversed, constant, two-valued (random/alternating), organ-pipe, valley, sawtooth, '
              'rotated-by-one, random with many ties, n = 0..1000, ~2048/4096, 20000, 50000 (possibly quadratic '
              'selector/pattern pairs capped at 4096; quick tier runs the biggest lengths in 1 case of 8, rotating with the '
